@@ -28,7 +28,9 @@ type Val struct {
 	VU   [][]uint64 `json:"vu,omitempty"` // vlen sequences (ints as two's complement / floats as bits)
 }
 
-func (v Val) IsScalar() bool { return len(v.Kind) > 0 && v.Kind[0] != '[' && v.Kind != "bytes" && v.Kind[0] != 'v' }
+func (v Val) IsScalar() bool {
+	return len(v.Kind) > 0 && v.Kind[0] != '[' && v.Kind != "bytes" && v.Kind[0] != 'v'
+}
 
 // Len returns the number of elements.
 func (v Val) Len() int {
